@@ -258,7 +258,7 @@ theorem sameA_detect (s : St) (c : Cfg) (call : Call) (err : ErrKind) : SameA s 
         split
         · exact SameA.refl s
         · split
-          · exact (sameA_modRef s call.slot (fun r => { r with deCalls := r.deCalls + 1 })).trans (sameA_refresh _ _)
+          · exact (sameA_modRef s call.slot (fun r => { r with deCalls := satInc r.deCalls })).trans (sameA_refresh _ _)
           · exact sameA_modRef _ _ _
 
 theorem sameA_opDone (s : St) (callId : Nat) (err : ErrKind) (reply : Msg) : SameA s (opDone s callId err reply).1 := by
